@@ -9,8 +9,12 @@ package checks
 
 import (
 	"fmt"
+	"os"
+	"runtime"
 	"sort"
 	"strings"
+	"sync"
+	"sync/atomic"
 
 	"verif/internal/ev"
 	"verif/internal/lite"
@@ -316,21 +320,72 @@ func runC10(r *ev.Run) {
 	r.Rule = "grammar-directed enumeration of CREATE TABLE statements (1-3 columns; types {none, INTEGER, integer, INT, TEXT, INTEGER(5)}; every ordered list of <=2 (3 thorough) column constraints from 14; 0-2 table constraints from 20 incl. duplicate/overlapping/re-ordered/collated/DESC ones and CONSTRAINT names; WITHOUT ROWID; 6 identifier spellings) and CREATE INDEX statements (UNIQUE, column permutations, per-column COLLATE/DESC, partial, expression columns, one or two indexes) on 5 base tables; only statements real SQLite accepts are judged; oracle: PRAGMA table_xinfo/index_list/index_xinfo + a behavioural rowid-alias probe + reading the probe row back. A definition sqlittle rejects is fine; an explicit index it leaves out is fine; every index it reports must match SQLite's index of that name; every automatic index must be reported. non-trivial = statements with at least one index or a primary key"
 	cases := c10Generate(r.Thorough())
 	r.Set("generated_statements", len(cases))
-	ev.Parallel(len(cases), func(i int) {
-		c10One(r, &cases[i])
-	})
+	// one SQLite connection per worker, reused (the table is dropped between cases)
+	var next int64 = -1
+	var wg sync.WaitGroup
+	for w := 0; w < runtime.NumCPU(); w++ {
+		wg.Add(1)
+		go func() {
+			defer wg.Done()
+			l, err := lite.OpenMem()
+			if err != nil {
+				r.Harness("lite: %v", err)
+				return
+			}
+			defer l.Close()
+			l.MustExec("PRAGMA page_size=512; CREATE TABLE o (x PRIMARY KEY);")
+			for {
+				i := int(atomic.AddInt64(&next, 1))
+				if i >= len(cases) {
+					return
+				}
+				c10One(r, l, &cases[i])
+			}
+		}()
+	}
+	wg.Wait()
 }
 
-func c10Sig(kind string, c *c10Case) string { return "C10:" + kind }
+// c10Class names the special construct of a statement list for which a
+// discrepancy is a separately tracked finding; "" for everything else.
+func c10Class(stmts []string) string {
+	all := strings.Join(stmts, "; ")
+	up := strings.ToUpper(all)
+	if strings.Contains(up, "INTEGER(5)") && strings.Contains(up, "PRIMARY KEY") {
+		return ":integer(n)-primary-key"
+	}
+	if strings.Contains(up, "PRIMARY KEY (A, A)") {
+		return ":duplicate-pk-column"
+	}
+	if strings.Contains(up, "+ 1 COLLATE") {
+		return ":binary-op-collate"
+	}
+	body := stmts[0]
+	if i := strings.Index(body, "("); i >= 0 {
+		body = body[i+1:]
+	}
+	for _, piece := range strings.Split(body, ", ") {
+		pu := strings.ToUpper(piece)
+		if strings.Contains(pu, "UNIQUE") && strings.Contains(pu, "PRIMARY KEY DESC") && !strings.Contains(pu, "(") {
+			return ":unique+primary-key-desc-on-one-column"
+		}
+	}
+	return ""
+}
 
-func c10One(r *ev.Run, c *c10Case) {
-	l, err := lite.OpenMem()
-	if err != nil {
-		r.Harness("lite: %v", err)
+var c10DumpSig = os.Getenv("VERIF_C10_DUMP")
+
+func c10One(r *ev.Run, l *lite.DB, c *c10Case) {
+	if c10DumpSig != "" {
+		before := r.HasViolation(c10DumpSig)
+		defer func() {
+			_ = before
+		}()
+	}
+	if err := l.Exec("DROP TABLE IF EXISTS t"); err != nil {
+		r.Harness("drop: %v", err)
 		return
 	}
-	defer l.Close()
-	l.MustExec("PRAGMA page_size=512; CREATE TABLE o (x PRIMARY KEY);")
 	for _, st := range c.stmts {
 		if err := l.Exec(st); err != nil {
 			r.Outcome("sqlite-rejects")
@@ -366,6 +421,7 @@ func c10One(r *ev.Run, c *c10Case) {
 		return
 	}
 	got := c10Little(s)
+	cls := c10Class(c.stmts)
 	if len(want.Indexes) > 0 || len(want.PK) > 0 || want.Alias != "" {
 		r.NontrivialN(1)
 	}
@@ -375,23 +431,23 @@ func c10One(r *ev.Run, c *c10Case) {
 	}
 	stmt := strings.Join(c.stmts, "; ")
 	if strings.Join(got.Cols, ",") != strings.Join(want.Cols, ",") {
-		r.Violation("C10:columns", fmt.Sprintf("%s: columns %v, SQLite %v", stmt, got.Cols, want.Cols), art)
+		r.Violation("C10:columns"+cls, fmt.Sprintf("%s: columns %v, SQLite %v", stmt, got.Cols, want.Cols), art)
 		return
 	}
 	if got.WR != want.WR {
-		r.Violation("C10:withoutrowid", fmt.Sprintf("%s: WithoutRowid=%v, SQLite %v", stmt, got.WR, want.WR), art)
+		r.Violation("C10:withoutrowid"+cls, fmt.Sprintf("%s: WithoutRowid=%v, SQLite %v", stmt, got.WR, want.WR), art)
 		return
 	}
 	if got.Alias != want.Alias {
-		r.Violation("C10:rowid-alias:"+c10AliasClass(stmt), fmt.Sprintf("%s: rowid alias column %q, SQLite's behaviour says %q", stmt, got.Alias, want.Alias), art)
+		r.Violation("C10:rowid-alias:"+c10AliasClass(stmt)+cls, fmt.Sprintf("%s: rowid alias column %q, SQLite's behaviour says %q", stmt, got.Alias, want.Alias), art)
 	}
 	if want.WR {
 		if strings.Join(got.PK, ",") != strings.Join(want.PK, ",") {
-			r.Violation("C10:wr-pk:"+c10PKClass(got.PK, want.PK), fmt.Sprintf("%s: primary key %v, SQLite %v", stmt, got.PK, want.PK), art)
+			r.Violation("C10:wr-pk:"+c10PKClass(got.PK, want.PK)+cls, fmt.Sprintf("%s: primary key %v, SQLite %v", stmt, got.PK, want.PK), art)
 		}
 	} else if want.Alias == "" && got.Alias == "" {
 		if got.PKIndex != want.PKIndex {
-			r.Violation("C10:pk-index", fmt.Sprintf("%s: primary key backed by %q, SQLite %q", stmt, got.PKIndex, want.PKIndex), art)
+			r.Violation("C10:pk-index"+cls, fmt.Sprintf("%s: primary key backed by %q, SQLite %q", stmt, got.PKIndex, want.PKIndex), art)
 		}
 	}
 	// every reported index must match SQLite's index of that name
@@ -404,18 +460,18 @@ func c10One(r *ev.Run, c *c10Case) {
 		gi := got.Indexes[n]
 		wi, ok := want.Indexes[n]
 		if !ok {
-			r.Violation("C10:phantom-index:"+c10NameClass(n), fmt.Sprintf("%s: reports index %q which SQLite does not have (SQLite: %v)", stmt, n, keysOf(want.Indexes)), art)
+			r.Violation("C10:phantom-index:"+c10NameClass(n)+cls, fmt.Sprintf("%s: reports index %q which SQLite does not have (SQLite: %v)", stmt, n, keysOf(want.Indexes)), art)
 			continue
 		}
 		if strings.Join(gi.Cols, ",") != strings.Join(wi.Cols, ",") {
-			r.Violation("C10:index-columns:"+c10NameClass(n)+":"+c10ColDiff(gi.Cols, wi.Cols), fmt.Sprintf("%s: index %q reported as %v, SQLite %v", stmt, n, gi.Cols, wi.Cols), art)
+			r.Violation("C10:index-columns:"+c10NameClass(n)+":"+c10ColDiff(gi.Cols, wi.Cols)+cls, fmt.Sprintf("%s: index %q reported as %v, SQLite %v", stmt, n, gi.Cols, wi.Cols), art)
 		}
 	}
 	// every automatic index must be reported
 	for n := range want.Indexes {
 		if strings.HasPrefix(n, "sqlite_autoindex_") {
 			if _, ok := got.Indexes[n]; !ok {
-				r.Violation("C10:autoindex-missing", fmt.Sprintf("%s: automatic index %q not reported (reported: %v)", stmt, n, keysOf(got.Indexes)), art)
+				r.Violation("C10:autoindex-missing"+cls, fmt.Sprintf("%s: automatic index %q not reported (reported: %v)", stmt, n, keysOf(got.Indexes)), art)
 			}
 		}
 	}
@@ -425,7 +481,7 @@ func c10One(r *ev.Run, c *c10Case) {
 		gotRows, gerr := SelectAll(h, "t", want.Cols...)
 		r.Trans(1)
 		if gerr != nil || !RowsEq(gotRows, wantRows, true) {
-			r.Violation("C10:probe-row:"+c10AliasClass(stmt), fmt.Sprintf("%s: the row (70, 71, ..) reads back as %v (err=%v), SQLite %v", stmt, RowsS(gotRows), gerr, RowsS(wantRows)), art)
+			r.Violation("C10:probe-row:"+c10AliasClass(stmt)+cls, fmt.Sprintf("%s: the row (70, 71, ..) reads back as %v (err=%v), SQLite %v", stmt, RowsS(gotRows), gerr, RowsS(wantRows)), art)
 		}
 	}
 }
